@@ -131,7 +131,7 @@ func absInt(a int) int {
 func TestVerif_C15(t *testing.T) {
 	c := vStart(t, "C15", "TestVerif_C15")
 	defer c.Finish()
-	n := c.N(30000, 400000)
+	n := c.N(30000, 3000000)
 	for idx := int64(0); idx < n; idx++ {
 		if !c.Mine(idx) {
 			continue
